@@ -574,6 +574,8 @@ def io_faults(rep, wd, rng, quick):
 DIRECTIVE_FAULTS = {
     "prefix-less multi-line directive": "TXTPP#run echo x\n",
     "failing command": "-TXTPP#run exit 3\n",
+    "command killed by a signal": "-TXTPP#run echo partial; kill -9 $$; echo never\n",
+    "command that execs a crashing process": "-TXTPP#run exec sh -c 'kill -SEGV $$'\n",
     "missing include": "TXTPP#include no-such-file\n",
     "include of a directory": "TXTPP#include sub\n",
     "include of a non-UTF-8 file": "TXTPP#include bin.dat\n",
